@@ -27,7 +27,7 @@ def model(key, alg, digits, period, token, t, window, skew, last):
                 token = token.decode("utf-8")
             except UnicodeDecodeError:
                 return ("malformed",)
-        tok = "".join(ch for ch in token if ch not in " -\t\n\r")
+        tok = "".join(ch for ch in token if not (ch.isspace() or ch in "-="))        # white space (any), dashes and '=' are decoration
         if not tok.isdigit():
             return ("malformed",)
     if len(tok) != digits:
@@ -139,7 +139,8 @@ def cube(run, periods, keyidx):
                             # decorated spellings of a valid code
                             code = codes[min(max(cur, lo), hi)]
                             for dec in (code[:3] + " " + code[3:], code[:3] + "-" + code[3:], " " + code + " ", code.encode(),
-                                        (code[:3] + " " + code[3:]).encode(), (code[:2] + "-" + code[2:]).encode(), (code + "\n").encode(), ("\t" + code).encode()):
+                                        (code[:3] + " " + code[3:]).encode(), (code[:2] + "-" + code[2:]).encode(), (code + "\n").encode(), ("\t" + code).encode(),
+                                        code[:3] + "\u00a0" + code[3:], code[:2] + "\u2009" + code[2:], (code[:3] + "\u3000" + code[3:]).encode("utf-8"), code + "\u202f"):
                                 compare(run, otp, key, alg, digits, period, dec, t, window, skew, last, "decorated")
                         n += 1
         run.evaluations += n
